@@ -24,3 +24,6 @@ pub fn unbv(b: &Bitvector) -> (u128, u32) {
 pub fn hex(v: u128) -> String {
     format!("{v:#x}")
 }
+
+pub mod ir_interp;
+pub mod irb;
